@@ -119,5 +119,34 @@ def run(r):
         import traceback
         traceback.print_exc()
         r.violation({"correspondence": "could not be run", "error": repr(e)}, found_input=False, name="C03-correspondence.json")
+    # the region C03_resolve's hypothesis leaves out - a free variable that shares its name with a local (3.12+ inlined comprehensions) -
+    # decided by execution against the real dis of 3.12 and 3.13
+    try:
+        for v in ("3.12", "3.13"):
+            d = os.path.join(r.wd, "freelocal" + v)
+            os.makedirs(d, exist_ok=True)
+            pyc = os.path.join(d, "freelocal.pyc")
+            rc, out, err = C.run_py(os.path.join(C.VERIF, "tools/harness/oracle_freelocal.py"), host=C.ORACLES[v], stdin=json.dumps({"dir": d, "out": pyc}), impl=False)
+            want = json.loads(out.split("@@JSON@@")[1])
+            got = C.run_impl_op("freelocal", [{"file": pyc}], modules=MODS)[0]
+            r.case(("freelocal", v), nontrivial=True)
+            diff = [(a, b) for a, b in zip(want["rows"], got)] if isinstance(got, list) else None
+            bad = [(a, b) for a, b in (diff or []) if a != b]
+            if got is None or not isinstance(got, list) or len(got) != len(want["rows"]):
+                r.violation({"component": "operand resolution, free variable named like a local", "version": v, "dis": want, "xdis": got, "why": "the instruction rows differ in number"})
+            elif bad:
+                only_free = all(a[1] in ("LOAD_DEREF", "STORE_DEREF", "LOAD_CLOSURE") for a, b in bad)
+                if only_free and r.is_known("D45"):
+                    r.known_finding("D45", "a free variable that shares its name with a local (3.12+ inlined comprehension): LOAD_DEREF resolves to the wrong name - the merged "
+                                    "locals+cells+frees table drops every cell OR FREE name already among the locals, CPython only merges cells")
+                else:
+                    r.violation({"component": "operand resolution, free variable named like a local", "version": v, "differences": bad[:6], "tables": {k: want[k] for k in ("varnames", "cellvars", "freevars")},
+                                 "why": "xdis resolves other names than the producing CPython's dis"})
+    except SystemExit:
+        raise
+    except Exception as e:
+        import traceback
+        traceback.print_exc()
+        r.violation({"correspondence": "free/local witness could not be run", "error": repr(e)}, found_input=False, name="C03-correspondence.json")
     r.cov["explanation"] = ("The resolved OBJECT is identified by (table, index) over marker tables; constants' own values are C01/C10's business. argrepr text is not compared (C12). "
                             "For tables without an installed interpreter the plan is not compared with a reference.")
